@@ -588,7 +588,7 @@ func ruleCmpTotal(w *World, r *RuleResult) {
 		if !hasLt || !hasNeg {
 			continue
 		}
-		k, isK := phiOnPath(p.Ret.Results[0], p).(*ssa.Const)
+		kv, isK := intOnPath(p.Ret.Results[0], p, 0)
 		if !isK {
 			continue
 		}
@@ -603,8 +603,8 @@ func ruleCmpTotal(w *World, r *RuleResult) {
 		if neg {
 			want = -want
 		}
-		if ci(k) != want {
-			bad = append(bad, fmt.Sprintf("return %d where %d is required (exp<:%v exp>:%v negative:%v)", ci(k), want, lt, gt, neg))
+		if kv != want {
+			bad = append(bad, fmt.Sprintf("return %d where %d is required (exp<:%v exp>:%v negative:%v)", kv, want, lt, gt, neg))
 		}
 	}
 	if len(bad) > 0 || n < 4 {
@@ -675,4 +675,40 @@ func (w *World) falseMeansError(h *ssa.Function) bool {
 		}
 	}
 	return true
+}
+
+// intOnPath: the integer a value has on path p when it is built from constants by φ, negation and
+// multiplication (`c = -c` under a sign test).
+func intOnPath(v ssa.Value, p Path, depth int) (int64, bool) {
+	if depth > 8 {
+		return 0, false
+	}
+	v = phiOnPath(v, p)
+	switch x := v.(type) {
+	case *ssa.Const:
+		if x.Value == nil {
+			return 0, false
+		}
+		return ci(x), true
+	case *ssa.UnOp:
+		if x.Op == token.SUB {
+			if k, ok := intOnPath(x.X, p, depth+1); ok {
+				return -k, true
+			}
+		}
+	case *ssa.BinOp:
+		a, okA := intOnPath(x.X, p, depth+1)
+		b, okB := intOnPath(x.Y, p, depth+1)
+		if okA && okB {
+			switch x.Op {
+			case token.MUL:
+				return a * b, true
+			case token.SUB:
+				return a - b, true
+			case token.ADD:
+				return a + b, true
+			}
+		}
+	}
+	return 0, false
 }
